@@ -420,6 +420,7 @@ func (m *Memory) FindLatest(
 		}
 		var ret []*amhist.MemoryRecord
 
+	records:
 		for id := m.nextId.Load() - 1; id > 0; id-- {
 			if ctx.Err() != nil || m.Ctx.Err() != nil {
 				return nil
@@ -474,35 +475,35 @@ func (m *Memory) FindLatest(
 			// Active
 			for _, state := range query.Active {
 				if !am.IsActiveTick(t.MTimeTracked[m.Index1(state)]) {
-					continue
+					continue records
 				}
 			}
 			// Activated
 			for _, state := range query.Activated {
 				idx := m.Index1(state)
 				if !am.IsActiveTick(t.MTimeTracked[idx]) {
-					continue
+					continue records
 				}
 				// if has previously been active
 				if older != nil && am.IsActiveTick(older.Time.MTimeTracked[idx]) {
-					continue
+					continue records
 				}
 			}
 			// Inactive
 			for _, state := range query.Inactive {
-				if am.IsActiveTick(t.MTimeTracked[mach.Index1(state)]) {
-					continue
+				if am.IsActiveTick(t.MTimeTracked[m.Index1(state)]) {
+					continue records
 				}
 			}
 			// Deactivated
 			for _, state := range query.Deactivated {
 				idx := m.Index1(state)
 				if am.IsActiveTick(t.MTimeTracked[idx]) {
-					continue
+					continue records
 				}
 				// if has previously been inactive
 				if older != nil && !am.IsActiveTick(older.Time.MTimeTracked[idx]) {
-					continue
+					continue records
 				}
 			}
 			// MTimeStates
